@@ -402,6 +402,7 @@ void TasmanianSparseGrid::loadNeededValues(const double *vals){
     base->loadNeededValues(vals);
 }
 void TasmanianSparseGrid::loadNeededValues(const std::vector<double> &vals){
+    if (empty()) throw std::runtime_error("Cannot load model values into an empty grid!");
     size_t nump = (size_t) base->getNumNeeded();
     if (nump == 0) nump = (size_t) base->getNumPoints();
     nump *= (size_t) base->getNumOutputs();
